@@ -15,6 +15,7 @@ CONSTANTS
  WithMemMerge = TRUE
  MaxMergeInputs = 0
  AsyncRelease = FALSE
+  WithMergeFail = FALSE
  MaxOpens = 3
 INVARIANTS RootIsReplay BoltFilesOnDisk RootFilesOnDisk CopyFilesOnDisk
 CHECK_DEADLOCK FALSE
